@@ -89,7 +89,7 @@ func checkConcurrent(prop string, x *Exec, c *Case, nsched int) ([]Violation, bo
 		viol = append(viol, GrammarViolation(prop, i, t)...)
 		soloT[i] = Canonical(t.Msgs)
 		soloE[i] = normRemote(CallbackTrace(cs))
-		if t.Grammar == nil {
+		if nm, _ := c.Expect["no_model"].(bool); t.Grammar == nil && !nm {
 			if mr := MatchConn(s, cs, t); !mr.OK {
 				viol = append(viol, Violation{Prop: prop, Rule: mr.Rule, Sig: mr.Sig, Detail: fmt.Sprintf("conn %d served alone: %s", i, mr.Detail)})
 			}
@@ -254,10 +254,49 @@ func checkC15TLS(x *Exec, c *Case) ([]Violation, bool) {
 	return viol, true
 }
 
+// genC15Logins: 5-8 connections present a wrong password for one user name,
+// one presents the right one - and is served only when the others are done.
+// What other connections did with that name is none of its business.
+func genC15Logins(r *Rand) *Case {
+	c := &Case{Variant: "login-storm", Server: ServerCfg{Limit: 4096, Auth: "cleartext", DefaultAuth: "reject"}, Programs: map[string]*Program{}}
+	user, db := "alice"+r.Ident(2), "db"
+	c.Server.Validator = []AuthEntry{{DB: db, User: user, PW: "right", Out: "accept"}}
+	c.Programs["q"] = &Program{Stmts: []*StmtProg{{Cols: []ColSpec{{Name: "a", OID: pgwire.OIDText}}, Ops: []Op{{K: "row", Row: []Val{{G: "string", S: "ok"}}}, {K: "complete", Tag: "SELECT 1"}}}}}
+	nwrong := r.Range(5, 8)
+	sc := &SchedCase{Strategy: r.Pick("uniform", "pct"), Depth: 1, MaxSteps: 300000}
+	for i := 0; i < nwrong; i++ {
+		c.Conns = append(c.Conns, ConnCase{Steps: []Step{{Msgs: []pgwire.FMsg{startupMsg(user, db)}}, {Msgs: []pgwire.FMsg{{K: "p", S1: r.Pick("wrong", "Right", "right ", "")}}}}})
+		sc.Holds = append(sc.Holds, Hold{Task: 1 + nwrong, Point: "read", Until: 1 + i, UntilPoint: "close"})
+	}
+	c.Conns = append(c.Conns, ConnCase{Steps: []Step{{Msgs: []pgwire.FMsg{startupMsg(user, db)}}, {Msgs: []pgwire.FMsg{{K: "p", S1: "right"}}}, {Msgs: []pgwire.FMsg{{K: "Q", S1: "q"}}}}})
+	c.Sched = sc
+	return c
+}
+
+// genC15Cancel: one session's middleware-derived context ends (a statement
+// cancels it) and the client goes on sending; the sessions beside it are
+// served as if nothing had happened.
+func genC15Cancel(r *Rand) *Case {
+	c := &Case{Variant: "session-context-ends", Server: ServerCfg{Limit: 4096, MW: []MWSpec{{Cancel: true}}}, Programs: map[string]*Program{}, Expect: map[string]any{"no_model": true}}
+	col := []ColSpec{{Name: "a", OID: pgwire.OIDText}}
+	c.Programs["a1"] = &Program{Stmts: []*StmtProg{{Cols: col, Ops: []Op{{K: "complete", Tag: "A1"}, {K: "cancel"}}}}}
+	c.Programs["q"] = &Program{Stmts: []*StmtProg{{Cols: col, Ops: []Op{{K: "row", Row: []Val{{G: "string", S: "ok"}}}, {K: "complete", Tag: "SELECT 1"}}}}}
+	c.Conns = append(c.Conns, ConnCase{Steps: []Step{{Msgs: []pgwire.FMsg{startupMsg("a", "d")}}, {Msgs: []pgwire.FMsg{{K: "Q", S1: "a1"}}}, {Msgs: []pgwire.FMsg{{K: "Q", S1: "q"}}}, {Msgs: []pgwire.FMsg{{K: "Q", S1: "q"}}}}})
+	for n := r.Range(1, 3); n > 0; n-- {
+		steps := []Step{{Msgs: []pgwire.FMsg{startupMsg(fmt.Sprintf("b%d", n), "d")}}}
+		for q := r.Range(2, 4); q > 0; q-- {
+			steps = append(steps, Step{Msgs: []pgwire.FMsg{{K: "Q", S1: "q"}}})
+		}
+		c.Conns = append(c.Conns, ConnCase{Steps: steps})
+	}
+	c.Sched = &SchedCase{Strategy: r.Pick("uniform", "pct"), Depth: r.Range(1, 2), MaxSteps: 300000}
+	return c
+}
+
 func init() {
 	register(&Prop{
 		ID: "C15", Level: "exploration", QuickS: 30, ThoroughS: 480, Race: true,
-		Rule: "seeded sets of 2-5 sessions drawn from the generators of C05-C09/C13 (simple and extended queries, COPY, failing handlers, Close) that deliberately use the same statement/portal names, different users and different Go row types for the same OIDs; each session is first served alone on a fresh server (E1), then all together on one server under 4 (quick) / 8 (thorough) seeded schedules (uniform, PCT depth 1-3; schedule points at every transport operation, callback entry, row write and spliced sync operation, so handler executions interleave at row granularity and one connection may be starved until the others are done); oracle (a): per connection the canonical transcript and callback trace equal the solo ones; oracle (b): the -race shard with the HB-transparent scheduler reports nothing (a report is attributed to the case and confirmed by replaying it alone in a fresh -race process); a quarter of the sets are preceded by a probe connection (EOF, junk, HTTP request or truncated startup packet); a tenth of the cases are 2-3 clients that upgrade to TLS at the same time on a fresh server and run a short session each (transcripts compared with the plaintext solo runs; the -race shard covers the upgrade path); non-trivial = at least two connections; distinct = distinct case content hashes; distinct_interleavings = distinct (task, point) decision sequences",
+		Rule: "seeded sets of 2-5 sessions drawn from the generators of C05-C09/C13 (simple and extended queries, COPY, failing handlers, Close) that deliberately use the same statement/portal names, different users and different Go row types for the same OIDs; each session is first served alone on a fresh server (E1), then all together on one server under 4 (quick) / 8 (thorough) seeded schedules (uniform, PCT depth 1-3; schedule points at every transport operation, callback entry, row write and spliced sync operation, so handler executions interleave at row granularity and one connection may be starved until the others are done); oracle (a): per connection the canonical transcript and callback trace equal the solo ones; oracle (b): the -race shard with the HB-transparent scheduler reports nothing (a report is attributed to the case and confirmed by replaying it alone in a fresh -race process); a quarter of the sets are preceded by a probe connection (EOF, junk, HTTP request or truncated startup packet); a tenth of the cases are 2-3 clients that upgrade to TLS at the same time on a fresh server and run a short session each (transcripts compared with the plaintext solo runs; the -race shard covers the upgrade path); variants: login-storm (5-8 wrong-password connections for one user name, then the right one), session-context-ends (one session's middleware-derived context is cancelled and the client goes on sending beside ordinary sessions); non-trivial = at least two connections; distinct = distinct case content hashes; distinct_interleavings = distinct (task, point) decision sequences",
 		Components: []string{
 			"real: everything on the serving path (accept loop, per-connection goroutines, handshake, command loop, caches, type maps, writers, COPY readers, pgx codecs)",
 			"stub: listener/connections, handler programs; scheduler: harness/kernel.go serialises and chooses goroutines; race oracle: Go race detector of the -race worker, kernel synchronisation hidden via runtime.RaceDisable and //go:norace",
@@ -266,6 +305,12 @@ func init() {
 		Gen: func(r *Rand, tier string) *Case {
 			if r.Chance(1, 10) {
 				return genC15TLS(r)
+			}
+			if r.Chance(1, 25) {
+				return genC15Logins(r)
+			}
+			if r.Chance(1, 25) {
+				return genC15Cancel(r)
 			}
 			c := genConcurrent(r, r.Range(2, 5), histOpts{simple: true, extended: true, copy: r.Chance(1, 3), errs: true, params: true, binary: true, rich: true, typedNull: true, closes: true, unknownNames: true, multi: true, maxUnits: 4}, r.PickInt(1000, 4096, 65536))
 			// (how many ExtendTypes options the server was given decides the spare
